@@ -22,8 +22,7 @@ WWR = "vaporetto::dict_model::WordWeightRecord"
 
 
 def run(chk):
-    w = facts.world("W")
-    chk.configs.add("W")
+    w = C.world_for(chk)
     for rid, txt in (("R19.1", "replace_dictionary/dictionary touch exactly the dictionary field"), ("R19.2", "records only through the checking constructor"),
                      ("R19.3", "dump/replace codec agreement in the tool"), ("R19.4", "tool order and error discipline")):
         chk.rule(rid, txt)
